@@ -262,3 +262,26 @@ Example C08_has_key_code_nonvacuous :
   fn_hasKey has_sub_keys 6 gstate0 m (s "k") [] 0 [] = Ret ([VStr (s "1"); VMap [(s "id", VStr (s "7"))]], 2%Z) /\
   fn_hasKey has_sub_keys 6 gstate0 m (s "k") [] 0 [(s "id", VStr (s "7"))] = Ret ([VMap [(s "id", VStr (s "7"))]], 1%Z).
 Proof. split; [vm_compute; repeat constructor|split; vm_compute; reflexivity]. Qed.
+
+(* the recursive walker behind PathsForKey: go2v's translation of func hasKeyPath puts exactly the model's trails into the
+   basket (a map[string]bool, threaded as state), in the model's order; its keys are distinct and are a permutation of the
+   model's paths_for_key (PathsForKey then copies the keys out in hash order) *)
+From Mxj Require Import GenProofs.PureG4.
+
+Theorem C08_has_key_path_code_is_model : forall iv fuel st crumbs key basket,
+  vd iv < fuel ->
+  fn_hasKeyPath fuel st crumbs iv key basket = Ret (bins (has_key_path crumbs iv key) basket).
+Proof. exact has_key_path_code_is_model. Qed.
+Print Assumptions C08_has_key_path_code_is_model.
+
+Theorem C08_paths_for_key_code_perm : forall m fuel st key,
+  vd m < fuel ->
+  exists basket, fn_hasKeyPath fuel st [] m key [] = Ret basket /\
+                 Permutation (map fst basket) (paths_for_key m key).
+Proof. exact paths_for_key_code_perm. Qed.
+Print Assumptions C08_paths_for_key_code_perm.
+
+Example C08_has_key_path_code_nonvacuous :
+  fn_hasKeyPath 6 gstate0 [] (VMap [(s "a", VMap [(s "k", VStr (s "1")); (s "b", VList [VMap [(s "k", VNil)]; VMap [(s "k", VNil)]])])]) (s "k") []
+  = Ret [(s "a.k", true); (s "a.b.k", true)].
+Proof. vm_compute. reflexivity. Qed.
